@@ -247,11 +247,12 @@ fn gen_c11(tier: &Tier, rng: &mut Rng, _w: usize, nw: usize, out: &mut Vec<Case>
                 let mut s: Vec<u8> = if in_frame { spec::START.to_vec() } else { vec![] };
                 s.extend(vec![0xaa; n]);
                 let rest = spec::frame(&[1, 2]);
+                // nothing is reported before the fault: the error must carry exactly |s| bytes
                 out.push(Case::new("other-error", vec![
                     format!("rdr io inf {} {} O {}", calls('n', 8), tok(&s), tok(&rest)),
                     format!("rdr io inf {} {}", calls('n', 4), tok(&s)),
                     format!("rdr io inf {} {}", calls('n', 4), tok(&rest)),
-                ]));
+                ]).with_aux(vec![s.len().to_string()]));
                 out.push(Case::new("wouldblock", vec![
                     format!("rdr io inf {} {} W {} W", calls('n', 8), tok(&s), tok(&rest)),
                     format!("rdr io inf {} {} {}", calls('n', 6), tok(&s), tok(&rest)),
